@@ -8,7 +8,7 @@ EXPLANATION = ("Bounded model checking with fault injection: for every corpus cl
                "k-th call (k value-forked over every call index), deserialize runs over all byte strings of length n with both entry modes and a reader that raises at its k-th call. "
                "On every path - returning, SerializationError, ValueError, injected fault - z3 decides mode-after == mode-before.")
 BOUNDS = {"quick": "every class of corpus/core plus a VERIF_SEED-chosen sample of 70 structs of the generated pair corpus; serialize: strings 0/1, arrays 0/1, every violation site, fault at call k for k = 0..12; deserialize: every byte string of length 0..3, fault at call k = 0..8, decoded counts up to 6",
-          "thorough": "core corpus plus ALL structs of the generated pair corpus; strings/arrays up to 2, k up to 24; deserialize lengths 0..5, k up to 16"}
+          "thorough": "core corpus (per class the richest lens/counts configuration up to 2 whose structure count stays <= 60) plus ALL structs of the generated pair corpus; k up to 24; deserialize lengths 0..5, k up to 16"}
 OUTSIDE = "specifications not in the corpus; faults other than an exception raised by a reader/writer method"
 ASSUMPTIONS = ["faults are exceptions raised by public add_*/get_*/next_chunk methods of a reader/writer subclass"]
 
@@ -28,13 +28,14 @@ def jobs(tier):
     mult = max(cfg["counts"]) + 1
     js = []
     for c in cls:
-        sites = count_sites(types, c["instrs"], mult)
-        js.append(dict(name=f"serialize_modes[{c['name']}]", fn="serialize_modes", args=[types, c, cfg, sites + 2, 12 if q else 24], tree="core",
+        ccfg = cfg if q else corpus.choose_cfg(types, c["instrs"], [{"lens": [0, 1], "counts": [0, 1]}, {"lens": [0, 1], "counts": [0, 1, 2]}, {"lens": [0, 1, 2], "counts": [0, 1, 2]}], 60)
+        sites = count_sites(types, c["instrs"], max(ccfg["counts"]) + 1)
+        js.append(dict(name=f"serialize_modes[{c['name']}]", fn="serialize_modes", args=[corpus.closure(types, c["instrs"]), c, ccfg, sites + 2, 12 if q else 24], tree="core",
                        collect_models=1, expect=["writer sanitisation mode is what it was on entry"]))
         for n in range(0, (3 if q else 5) + 1):
-            js.append(dict(name=f"deserialize_modes[{c['name']},n={n}]", fn="deserialize_modes", args=[types, c, n, 8 if q else 16, 6 if q else 24], tree="core",
+            js.append(dict(name=f"deserialize_modes[{c['name']},n={n}]", fn="deserialize_modes", args=[corpus.closure(types, c["instrs"]), c, n, 8 if q else 16, 6 if q else 24], tree="core",
                            collect_models=1, expect=["reader chunked mode is what it was on entry"]))
-        js.append(dict(name=f"nested[{c['name']}]", fn="nested_not_chunked", args=[types, c, cfg], tree="core", collect_models=1))
+        js.append(dict(name=f"nested[{c['name']}]", fn="nested_not_chunked", args=[corpus.closure(types, c["instrs"]), c, cfg if q else ccfg], tree="core", collect_models=1))
     _, ptypes, pcls = corpus.pairs(tier, corpus.seed(), 70, False)
     pcfg = {"lens": [0, 1], "counts": [0, 1]}
     for c in pcls:
